@@ -112,7 +112,36 @@ def workload(rng, n, R=None):
             inv = inv_en if lang == 'en' else inv_ja
             x, y = rng.choice(inv), rng.choice(inv)
         out.append((lang, x, y))
-    return out
+        k = rng.random()
+        if lang == 'en' and k < 0.15 and has_var(x, y):
+            # the same pair without its [X] marks: another input with (mostly) another result, whatever was asked before
+            out.append((lang, erase_var(x), erase_var(y)))
+        elif k < 0.2 and featureless(x) and featureless(y):
+            out.append(('ja' if lang == 'en' else 'en', x, y))         # the same featureless pair put to the other grammar
+        elif k < 0.25:
+            out.append(('ja-unary', C04.unary_inputs(rng, 1)[0], None))
+    if rng.random() < 2:
+        F = lambda l, s, r: ('F', l, s, r)      # noqa: E731
+        S, NP, N = ('A', 'S', None), ('A', 'NP', None), ('A', 'N', None)
+        for x, y in ((NP, F(NP, '\\', NP)), (F(S, '/', NP), NP), (F(S, '/', S), F(S, '\\', NP)), (F(NP, '/', N), N), (('A', ',', None), S)):
+            pos = rng.randrange(len(out) + 1)
+            out.insert(pos, ('en', x, y))
+            out.insert(rng.randrange(len(out) + 1), ('ja', x, y))
+    return out[:n] if len(out) > n else out
+
+
+def has_var(*vs):
+    return any(a[2] == ('U', 'X') for v in vs for a in refcat.atoms(v))
+
+
+def erase_var(v):
+    if v[0] == 'F':
+        return ('F', erase_var(v[1]), v[2], erase_var(v[3]))
+    return ('A', v[1], None) if v[2] == ('U', 'X') else v
+
+
+def featureless(v):
+    return all(a[2] is None for a in refcat.atoms(v))
 
 
 def grammars():
@@ -132,8 +161,23 @@ def run(spec, R):
     if kind == 'hashseed':
         rng = shard_rng(ID, spec['seed'], f'block{spec["block"]}')        # same inputs for every hash seed of a block
         wl = workload(rng, spec['cases'])
-        digests, nonempty = [], 0
-        for i, (lang, x, y) in enumerate(wl):
+        digests, nonempty = [None] * len(wl), 0
+        order = list(range(len(wl)))
+        hs_list = HASHSEEDS_Q if spec['tier'] == 'quick' else HASHSEEDS_T
+        if hs_list.index(spec['hashseed']) % 2 == 1:
+            order.reverse()         # every other process meets the inputs in the opposite order: what was asked before must not matter
+        for i in order:
+            lang, x, y = wl[i]
+            if lang == 'ja-unary':
+                X = refcat.from_ref(x)
+                try:
+                    res = ser(G['ja'].apply_unary_rules(X, {X: [X]}))
+                except Exception as e:
+                    res = ['raised', repr(e)]
+                R.case((lang, x), True)
+                R.count('hashseed:calls')
+                digests[i] = stable_hash(res)
+                continue
             X, Y = refcat.from_ref(x), refcat.from_ref(y)
             try:
                 res = ser(G[lang].apply_binary_rules(X, Y))
@@ -144,14 +188,14 @@ def run(spec, R):
             R.case((lang, x, y), bool(res))
             R.count('hashseed:calls')
             nonempty += bool(res)
-            digests.append(stable_hash(res))
+            digests[i] = stable_hash(res)
         R.extra['_digests'] = {spec['name']: digests}
         R.extra['hashseed_nonempty_calls'] = nonempty
         R.sample({'hashseed': spec['hashseed'], 'block': spec['block'], 'first_input': [wl[0][0], refcat.ref_print(wl[0][1]), refcat.ref_print(wl[0][2])]}, 2)
         return
     rng = shard_rng(ID, spec['seed'], spec['name'])
     if kind == 'pure':
-        wl = workload(rng, spec['cases'])
+        wl = [w for w in workload(rng, spec['cases']) if w[0] in ('en', 'ja')]
         seen_all = {'en': [(refcat.ref_parse(a), refcat.ref_parse(b)) for a, b in gens.seen_pairs('en')],
                     'ja': [(refcat.ref_parse(a), refcat.ref_parse(b)) for a, b in gens.seen_pairs('ja')]}
         first_results = []
@@ -336,9 +380,9 @@ def finish(merged, results, tier, seed, inconclusive):
                     lang, x, y = wl[i]
                     merged['violations'].append({
                         'key': 'rules:hash-seed-dependent',
-                        'what': f'{lang}: {refcat.ref_print(x)} + {refcat.ref_print(y)} gives different results under '
-                                f'PYTHONHASHSEED={seeds[0]} and {hs}',
-                        'witness': {'lang': lang, 'x': refcat.ref_print(x), 'y': refcat.ref_print(y), 'hashseeds': [seeds[0], hs]}})
+                        'what': f'{lang}: {refcat.ref_print(x)} + {refcat.ref_print(y) if y else "(unary)"} gives different results in two '
+                                f'fresh processes (PYTHONHASHSEED={seeds[0]} and {hs}; odd-numbered processes meet the block in reverse order)',
+                        'witness': {'lang': lang, 'x': refcat.ref_print(x), 'y': refcat.ref_print(y) if y else None, 'hashseeds': [seeds[0], hs]}})
                 merged['vcount']['rules:hash-seed-dependent'] = merged['vcount'].get('rules:hash-seed-dependent', 0) + len(diff)
     merged['monitors']['hashseed:process-pairs-compared'] = compared
     merged['extra']['hash_seeds'] = sorted({hs for d in by_block.values() for hs in d})
@@ -352,6 +396,10 @@ def replay(w, R):
     import sys
     env.install()
     x, y, lang = w['x'], w['y'], w['lang']
+    if y is None or lang == 'ja-unary':
+        print('unary witness: re-run the shard (', w, ')')
+        R.case((x,), True)
+        return
     code = ("import sys; sys.path.insert(0, %r); from vlib import env, refcat; env.install(); from vlib.checks.C14 import ser, grammars; "
             "print(ser(grammars()[%r].apply_binary_rules(refcat.from_ref(refcat.ref_parse(%r)), refcat.from_ref(refcat.ref_parse(%r)))))"
             % (env.VERIF, lang, x, y))
